@@ -722,6 +722,11 @@ def report(ctx, meta, failing):
                            "a variant phased by haplotagphase has a phase set that no covering tagged read carries")):
         for i in failing[lab]:
             spec, c, ch = meta[i]
+            if spec["stream"] == "noisy":
+                # by construction the phased VCF contradicts the reads' haplotypes: outside the property's
+                # precondition (L2-only stream); haplotagphase rightly follows the reads there
+                ctx.tally("noisy." + lab + ".not_applicable")
+                continue
             ctx.violation(sig, f"{txt} (chromosome {c}, pipeline spec {spec})", {"spec": spec, "signature": sig})
     # L2: the code follows the model with the repaired rule (Fixed); a tree that follows Cur is a disagreement
     cur_bad = sorted(set(failing["L2cur"]) | set(failing["L2consCur"]))
@@ -729,8 +734,11 @@ def report(ctx, meta, failing):
     l2 = []
     if failing["L2votes"]:
         l2.append(("HaplotagPhase.compute_votes = compute_votes (L2)", failing["L2votes"]))
-    if failing["L2tags"]:
-        l2.append(("HaplotagPhase.tags_of (haplotag_decide) = HP/PS tags written by haplotag (L2)", failing["L2tags"]))
+    # under --no-mav the multi-ALT records are missing from the reads haplotagphase sees, so the tag decision cannot be
+    # replayed on them (haplotag saw these records as biallelic)
+    tags_bad = [i for i in failing["L2tags"] if not meta[i][0].get("nomav")]
+    if tags_bad:
+        l2.append(("HaplotagPhase.tags_of (haplotag_decide) = HP/PS tags written by haplotag (L2)", tags_bad))
     # the premises of the theorems hold on the data for which clause 1 is checked
     prem_bad = [i for i in sorted(set(failing["Hef"]) | set(failing["Hsites"]))
                 if i not in prov_fail and meta[i][0]["stream"] in CONSISTENT_STREAMS]
